@@ -124,7 +124,7 @@ def run(tier, seed):
     for i in range(n):
         opts, dyn = rng.choice(OPTION_SETS)
         with_at = rng.random() < 0.3
-        t = tg.random_trait(rng, "Tr", dyn_safe=dyn, with_async_trait=with_at)
+        t = tg.random_trait(rng, "Tr", dyn_safe=dyn, with_async_trait=with_at, allow_ghost=True)
         macro = rng.choice(["entrait", "entrait", "entrait_export"])
         src = "#[::entrait::%s(%s)] /*@inv*/\n%s\n" % (macro, opts, t.source())
         nt = bool(t.attrs or t.generic or t.supers or t.where) and len(t.methods) >= 2
